@@ -443,6 +443,8 @@ class Interp:
             return v
         if isinstance(v, slice):
             return v
+        if isinstance(v, Obj):
+            return v            # objects are dictionary keys by identity (e.g. world instance -> orbit index)
         raise AnalysisError(f'{fr.mod.where(node)}: symbolic index `{ast.unparse(node)[:60]}`')
 
     # ------------------------------------------------------------ expressions
@@ -941,6 +943,8 @@ class Interp:
             s, a = f[1], f[2]
             if a == 'lower': return s.lower()
             if a == 'upper': return s.upper()
+            if a == 'title': return s.title()
+            if a == 'capitalize': return s.capitalize()
             if a == 'strip': return s.strip()
             if a == 'split': return s.split(*[x for x in args if isinstance(x, (str, int))])
             if a == 'startswith': return s.startswith(args[0])
@@ -1069,7 +1073,9 @@ class Interp:
             return Opaque('isinstance')
         if nm == 'type':
             a = args[0]
-            return TypeTag('scalar' if isinstance(a, (Node, int, Fraction)) else type(a).__name__)
+            if isinstance(a, int) and not isinstance(a, bool):
+                return TypeTag('int')       # a concrete Python int (an index, a degree): `type(x) == int` holds; it is still not an array
+            return TypeTag('scalar' if isinstance(a, (Node, Fraction)) else type(a).__name__)
         if nm == 'print':
             return None
         if nm in ('any', 'all'):
